@@ -328,6 +328,15 @@ void family( std::string const& flavour, int cap, bool heavy )
         Prog pre = w1; pre.insert( pre.begin() + 1, Ins{ BATCH, 20, cap > 1 ? cap - 1 : 0 } );
         add<RCU, HasCap>( flavour, cap, "retire-race-full", { pre, w2 }, {}, 0, bq, bt );
     }
+    // synchronize() pops an object that is not expired yet (it was retired after the epoch was advanced) and has to put it back:
+    // meanwhile the other thread has refilled the buffer
+    if ( HasCap && cap <= 2 ) {
+        Prog m = { {ATTACH,0,0}, {BEGIN,0,0}, {SYNC,0,0}, {END,0,0}, {DETACH,0,0} };
+        Prog w = { {ATTACH,0,0}, {BATCH,20,cap - 1}, {BEGIN,0,0}, {RETIRE,2,0} };
+        for ( int k = 0; k < cap; ++k ) w.push_back( Ins{ RETIRE, 3 + k, 0 } );
+        w.push_back( Ins{END,0,0} ); w.push_back( Ins{DETACH,0,0} );
+        add<RCU, HasCap>( flavour, cap, "sync-repush|refill", { m, w }, {}, 0, 3, 3 );
+    }
 }
 
 } // namespace
